@@ -203,7 +203,7 @@ def run_property(ctx, prop, rule, quick, thorough):
                "(model revision %s; finding classes not accepted on this tree: %s)"
                % (raft_src(), rev[0], rev[1], {"00": "rr_pinned", "11": "rr_fixed"}.get(rev, "mkRev " + rev), ", ".join(sorted(gone)) or "none"),
                "event lists: %d; failing histories are classified by the earliest KnownClass marker observed in the implementation's own trace "
-               "(double-vote, stale-vote-counted, ack-from-diverged-log, old-term-commit, ack-below-voted-term); a failure the model does not predict is never classified as known" % n],
+               "(double-vote, stale-vote-counted, ack-from-diverged-log, old-term-commit, ack-below-voted-term, commit-without-quorum); a failure the model does not predict is never classified as known" % n],
     )
 
 
